@@ -24,12 +24,12 @@ CHECKS = {
              text="For ALL f64 bit patterns of a 2x2 basis matrix and of the weights, build() never hands a non-finite matrix to the SVD (whose documented failure modes are a panic for M>=2 and non-termination for M>=3) and returns a problem without residuals instead; no overflow/index/unwrap panic is reachable in try_calculate, fit, fit_with_statistics, build for any 64-bit sizes (MIR, both overflow profiles); every p outside (0,1) is the only documented panic. Thorough: nothing downstream of an arbitrary SVD result panics (2x2x1, all f64). Degenerate shapes (N < M, N = M, N = 1; vector/matrix, sequential/parallel, update histories) run through build/set_params/residuals/jacobian on the symbolic scalar: no panic on the explored paths for all values.",
              note="NOT decided: termination and panic-freedom inside nalgebra's SVD/inverse for finite input and inside the LM loop (its bound patience*(n+1) is read, not proved); shapes beyond 2x2 under Kani. Supplementary native grids (watchdog): NaN/inf/extremes at every input position on 3x2 and 5x3; shapes N=1..5 x P=0..3 x all four flavours x weights through build/jacobian/fit/fit_with_statistics/band."),
  "C11": dict(tech="symbolic execution of both flavours on a symbolic scalar inside rayon pools + SMT; MIR comparison of the two impls", engines=[R, M, K],
-             text="Problems built by the parallel constructors report, at construction and after an update, residuals/coefficients/Jacobian that are proved equal (terms, all values) to the sequential problem's and to the specification, inside rayon pools of 1, 2, 3, 4, 16 threads, driven from outside the pool and from inside a worker of a dedicated pool (rayon splits the two differently: only the latter puts several columns into one job on small pools); complete fits through the real optimizer (sequential vs parallel constructor, vector and matrix API): same Ok/Err, termination, evaluation and model-call counts, and alpha-hat, coefficients, residuals, objective equal as terms; a failing derivative gives None in both; into_sequential preserves every field (Kani) and the MIR bodies of the two LeastSquaresProblem impls (set_params, params, residuals, all closures incl. the Jacobian column closure) are identical modulo the const generic.",
+             text="Problems built by the parallel constructors report, at construction and after an update, residuals/coefficients/Jacobian that are proved equal (terms, all values) to the sequential problem's and to the specification, inside rayon pools of 1, 2, 3, 4, 16 threads, driven from outside the pool and from inside a worker of a dedicated pool (rayon splits the two differently: only the latter puts several columns into one job on small pools); complete fits through the real optimizer (sequential vs parallel constructor, vector and matrix API): same Ok/Err, termination, evaluation and model-call counts, and alpha-hat, coefficients, residuals, objective equal as terms, and the parallel result proved against the specification of its returned state (per column: optimal coefficient, residual block, objective = 1/2||r||^2); a failing derivative gives None in both; into_sequential preserves every field (Kani) and the MIR bodies of the two LeastSquaresProblem impls (set_params, params, residuals, all closures incl. the Jacobian column closure) are identical modulo the const generic.",
              note=REAL + "; the schedule quantifier is NOT enumerated (rayon cannot be driven symbolically, Kani has no threads): schedule independence rests on each column being written by one pure closure (identical closure MIR) plus identical terms under the schedules that occurred (thread counts and both ways of entering the pool are varied; interleavings are not enumerated)"),
  "C06": dict(tech="relational symbolic execution (two real problems in one term arena) + SMT", engines=[R, K],
              text="Weighted problem vs. pre-scaled unweighted problem: both hand the same matrix to the SVD and report identical coefficients, residuals, Jacobian; reduced chi^2, weighted residuals and covariance of the statistics coincide; weights(1..1) == no weights; a zero weight removes the sample (real SVD, M=1).", note=REAL + "; 'along the whole fit' follows because LM only sees residuals()/jacobian(); the LM iteration itself is not executed symbolically"),
  "C07": dict(tech="relational symbolic execution + SMT", engines=[R, K],
-             text="S-column problem vs. S single-column problems (vector API): coefficient columns, residual blocks, Jacobian blocks identical; column permutation permutes them; dependent columns scale; 1-column MRHS == vector API, also for complete fits through the real optimizer (same outcome, counts, alpha-hat, coefficients, residuals, objective as terms).", note=REAL + "; not decided: the fitted alpha under a permutation of several columns (equal only up to the optimizer's accuracy)"),
+             text="S-column problem vs. S single-column problems (vector API): coefficient columns, residual blocks, Jacobian blocks identical; column permutation permutes them; dependent columns scale; 1-column MRHS == vector API, also for complete fits through the real optimizer (same outcome, counts, alpha-hat, coefficients, residuals, objective as terms; the matrix-API result proved against the specification of its returned state).", note=REAL + "; not decided: the fitted alpha under a permutation of several columns (equal only up to the optimizer's accuracy)"),
  "C09": dict(tech="symbolic execution with scripted model faults + SMT; facts per path", engines=[R, K, M],
              text="After a rejected set_params or a failing eval the problem exposes no residuals/coefficients/Jacobian; a failing derivative gives no Jacobian; after recovery the state equals a fresh problem's (terms proved equal). Through the real fit() on the symbolic scalar (symfit) with a model failure at call index k of the fit: Err, presence of residuals and coefficients consistent, whatever is present proved correct for the reported parameters. MIR: every failure path of fit/fit_with_statistics ends in Err carrying the problem; expect/unwrap panic paths are reported when the native sweep over every call index reproduces them.", note=REAL + "; fault positions: model.set_params, eval, each eval_partial_deriv, in build and in later updates; the LM loop's reaction (TerminationReason::User) is covered by Engine K (fabricated states) and by symfit (k in {0,1,2,4,7} quick, 0..13 thorough); supplementary native sweep: a failure at EVERY model call index of complete fits from several starting points"),
  "C10": dict(tech="symbolic execution of update histories + SMT; poisoning allocator", engines=[R, K],
